@@ -50,47 +50,47 @@ type stChan struct {
 }
 
 type stFn struct {
-	fd        *ast.FuncDecl
-	name      string
-	chans     map[string]*stChan
-	order     []*stChan // in order of make
-	sumOut    bool
-	valTy     string // γ
-	inName    string
-	variadic  bool
-	parName   string
-	fName     string // F / FF parameter
-	fKind     string // "F" | "FF" | ""
-	fResTy    string // Lean type of f's value result (β, Bool, α)
-	monoid    string
-	nName     string
-	loopVar   string
-	stateVar  string
-	stateTy   string
-	stateInit string
-	ghost     bool // σ = List α (visit log)
-	usesCatch bool
-	usesF     bool
-	usesComb  bool
-	boundErr  map[string]bool
-	errVars   map[string]bool
-	boolVars  map[string]bool
-	valVars   map[string]string // scratch value variables -> Lean expr
-	closures  []string          // emitted `let sel := …` lines
-	closNames map[string]bool
-	tyMap     map[string]string // Go type param -> Lean type
-	inCatch   bool
+	fd           *ast.FuncDecl
+	name         string
+	chans        map[string]*stChan
+	order        []*stChan // in order of make
+	sumOut       bool
+	valTy        string // γ
+	inName       string
+	variadic     bool
+	parName      string
+	fName        string // F / FF parameter
+	fKind        string // "F" | "FF" | ""
+	fResTy       string // Lean type of f's value result (β, Bool, α)
+	monoid       string
+	nName        string
+	loopVar      string
+	stateVar     string
+	stateTy      string
+	stateInit    string
+	ghost        bool // σ = List α (visit log)
+	usesCatch    bool
+	usesF        bool
+	usesComb     bool
+	boundErr     map[string]bool
+	errVars      map[string]bool
+	boolVars     map[string]bool
+	valVars      map[string]string // scratch value variables -> Lean expr
+	closures     []string          // emitted `let sel := …` lines
+	closNames    map[string]bool
+	tyMap        map[string]string // Go type param -> Lean type
+	inCatch      bool
 	collectorOps []string
-	sumRight  string // element type injected with Sum.inr ("ε", or "Unit" for token channels); "" = "ε"
-	chanVars  map[string]*stChan // local variables holding one of the stage's channels
-	declChanVars map[string]bool // `var dst chan<- A` seen in the worker
-	rcount    int
-	inHelper  bool // translating the inlined body of a guard helper: `return false` is the goroutine's return
-	helperTail *ast.ReturnStmt
-	pre       []string // lines to emit before the statement being translated (counted user-function calls)
-	needRet   bool   // the next statement must be a bare return (after `if catch { continue }`)
-	timed     bool   // sources family: sleep / recvSel / afterSel / forN are available
-	durNames  map[string]bool // int / time.Duration parameters usable as Nat values
+	sumRight     string             // element type injected with Sum.inr ("ε", or "Unit" for token channels); "" = "ε"
+	chanVars     map[string]*stChan // local variables holding one of the stage's channels
+	declChanVars map[string]bool    // `var dst chan<- A` seen in the worker
+	rcount       int
+	inHelper     bool // translating the inlined body of a guard helper: `return false` is the goroutine's return
+	helperTail   *ast.ReturnStmt
+	pre          []string        // lines to emit before the statement being translated (counted user-function calls)
+	needRet      bool            // the next statement must be a bare return (after `if catch { continue }`)
+	timed        bool            // sources family: sleep / recvSel / afterSel / forN are available
+	durNames     map[string]bool // int / time.Duration parameters usable as Nat values
 }
 
 func leanTy(fn *stFn, e ast.Expr) string {
@@ -1401,9 +1401,13 @@ func stage(fd *ast.FuncDecl) string {
 				continue
 			}
 		case *ast.ForStmt:
-			// for i := 1; i <= par; i++ { go w() }
-			if worker == nil && len(x.Body.List) == 1 {
-				if g, ok := x.Body.List[0].(*ast.GoStmt); ok {
+			// for i := 1; i <= par; i++ { go w() }      |      … { wg.Add(1); go w() }
+			perWorkerAdd := false
+			if worker == nil && len(x.Body.List) == 2 && src(x.Body.List[0]) == "wg.Add(1)" && addArg == "" && hasWG {
+				perWorkerAdd = true
+			}
+			if worker == nil && (len(x.Body.List) == 1 || perWorkerAdd) {
+				if g, ok := x.Body.List[len(x.Body.List)-1].(*ast.GoStmt); ok {
 					var w *stWorker
 					if h, ok := g.Call.Fun.(*ast.Ident); ok && closures[h.Name] != nil && len(g.Call.Args) == 0 {
 						w = closures[h.Name]
@@ -1427,8 +1431,11 @@ func stage(fd *ast.FuncDecl) string {
 						if _, ok := isParLoop(hd); !ok {
 							sfail(st, "worker start loop %q does not start exactly par workers", hd)
 						}
-						if addArg != "par" {
+						if addArg != "par" && !perWorkerAdd {
 							sfail(st, "wg.Add(%s) does not match the par workers started", addArg)
+						}
+						if perWorkerAdd {
+							addArg = "par" // one Add(1) per started worker, each before its `go`
 						}
 						worker = w
 						worker.workers = "par"
@@ -1519,8 +1526,9 @@ func stage(fd *ast.FuncDecl) string {
 					}
 				}
 				if len(b) > 0 && src(b[0]) == "wg.Wait()" {
-					if worker == nil || closerKind != "" {
-						sfail(st, "closer goroutine before the workers, or two closers")
+					// the closer may be started before the workers once the whole count has been added (wg.Add(total) precedes it)
+					if (worker == nil && addArg == "") || closerKind != "" {
+						sfail(st, "closer goroutine before the workers and before wg.Add, or two closers")
 					}
 					closerKind = "waitGroup"
 					if fn.name == "Fold" && len(b) > 1 {
@@ -2264,7 +2272,15 @@ func stagesFamily(files []string) string {
 		// one-line wrappers: return pkg.F(args…)
 		if len(fd.Body.List) == 1 {
 			if r, ok := fd.Body.List[0].(*ast.ReturnStmt); ok && len(r.Results) == 1 {
-				if c, ok := r.Results[0].(*ast.CallExpr); ok {
+				c, ok := r.Results[0].(*ast.CallExpr)
+				if ok {
+					// only a call into another package is a wrapper (`return pipe.X(args…)`); `return helper(…)` of this package
+					// is the stage itself, written with a helper: the pre-pass inlines it
+					if _, qualified := c.Fun.(*ast.SelectorExpr); !qualified {
+						ok = false
+					}
+				}
+				if ok {
 					args := []string{}
 					for _, a := range c.Args {
 						args = append(args, fmt.Sprintf("%q", src(a)))
